@@ -2,7 +2,7 @@
 # Run the property checks against every BENIGN change under /verif/benign/<name>/: a refactoring or
 # re-implementation under which the property still holds. Expectation: exit 0 and no VIOLATION line
 # (a false alarm otherwise).   tools/run_benign.sh [name ...]   (default: all)
-# TIER=thorough runs the thorough tier instead of quick.
+# TIER=thorough runs the thorough tier instead of quick; ONLY_PRIMARY=1 skips the also_check list.
 set -u
 cd /verif
 export VERIF_OUT=${VERIF_OUT:-/tmp/verif_seed_out}
@@ -19,6 +19,7 @@ for n in "${names[@]}"; do
   if [ -n "$(git -C /repo status --porcelain --untracked-files=no)" ]; then echo "/repo is dirty, refusing"; exit 2; fi
   prop=$(python3 -c "import json;print(json.load(open('$d/meta.json'))['property'])")
   extra=$(python3 -c "import json;print(' '.join(json.load(open('$d/meta.json')).get('also_check',[])))")
+  [ "${ONLY_PRIMARY:-0}" = "1" ] && extra=""
   if ! git -C /repo apply --check $PWD/$d/patch.diff 2>/dev/null; then echo "| $n | $prop | patch does not apply |" >> $tmp; continue; fi
   git -C /repo apply $PWD/$d/patch.diff
   verdict=""
